@@ -64,6 +64,26 @@ class Rec2(Rec):
     pass
 
 
+@pg.functor()
+def fn_sum(a, b=2, c=3):
+    return (a or 0) + b + c
+
+
+_DNA_SPEC = [None]
+
+
+def dna_spec():
+    """A small fixed search space for DNA roots (nested conditional sub-space)."""
+    if _DNA_SPEC[0] is None:
+        c = pg.geno.constant
+        _DNA_SPEC[0] = pg.geno.space([
+            pg.geno.manyof(2, [c(), pg.geno.space([pg.geno.oneof([c(), c()])]), c()], name='m'),
+            pg.geno.oneof([c(), c(), c()]),
+            pg.geno.floatv(0.0, 1.0),
+        ])
+    return _DNA_SPEC[0]
+
+
 CLASSES = {'Leaf': Leaf, 'Node': Node, 'Rec': Rec, 'Rec2': Rec2}
 
 STRINGS = ['', 'a', 'hello', 'x.y', 'k[0]', 'üñí', '中文', 'tab\there', 'nl\nline',
@@ -164,6 +184,16 @@ def build(desc, symbolic=True):
         return tuple(build(x, symbolic) for x in desc[1])
     if k == 'oneof':
         return pg.oneof(list(desc[1]))
+    if k == 'functor':
+        return fn_sum(**desc[1])
+    if k == 'dna':
+        import random as _r
+        d = pg.random_dna(dna_spec(), _r.Random(desc[1]))
+        for kk, vv, cl in desc[2]:
+            d.set_metadata(kk, vv, cloneable=cl)
+        for kk, vv, cl in desc[3]:
+            d.set_userdata(kk, vv, cloneable=cl)
+        return d
     if k == 'typed':
         # a typed pg.Dict / pg.List value with its own (compatible) value spec,
         # complete or partial (created with allow_partial=True, a required key missing)
